@@ -16,7 +16,7 @@ def run(tier):
     rec.rule = (
         "every i64 with 1..3 content octets (-2^23..2^23-1), every value within +-2^%d of every +-2^(8k-1) and +-2^(8k) (k=1..8); OIDs of 2..5 arcs over 16 boundary arcs and of "
         "2..128 arcs; NULL; OCTET STRING fields at the length-form boundaries; v1/v2c/v3 Get/GetNext/GetBulk messages over 38 boundary integers rotated through every integer field x 9 OID "
-        "lists (127/128/255/256-octet OIDs) x 6 community/user/engine-id lengths x v3 flag sets; message size sweep: k ordinary OIDs + one OID of L arcs for every k until the message no longer fits the buffer (v1/v2c/v3 x 3 PDU types). Each: push_ber == independent minimal encoding, library decoder returns the value with "
+        "lists (127/128/255/256-octet OIDs) x 6 community/user/engine-id lengths x v3 flag sets; message size sweep: k ordinary OIDs + one OID of L arcs for every k until the message no longer fits the buffer (v1/v2c/v3 x 3 PDU types); privacy layer: PrivKey::encrypt of scoped PDUs with 0..39 OIDs + one of 2..18 arcs (every residue mod 8 / 16), decrypted back by a second key object (DES, AES). Each: push_ber == independent minimal encoding, library decoder returns the value with "
         "nothing left, strict reference decoder accepts it. All cases distinct." % (20 if tier == "thorough" else 14)
     )
     rec.assume("reference codec rs/src/refber.rs written from X.690, sharing no code with the crate; release arithmetic (overflow-checks off) as in production")
